@@ -3,7 +3,7 @@
    - CMap  : an orderedmap.OrderedMap[uint32,uint32] (values matter)
    - CArith: a ds.SetArithmetic[uint32] under Add/Subtract with thresholds *)
 From Coq Require Import NArith ZArith List Bool.
-From Verif.C11_Set Require Import Model.
+From Verif.C11_Set Require Import Model CodecModel.
 Import ListNotations.
 Open Scope N_scope.
 
@@ -145,3 +145,44 @@ Fixpoint mismatches_from (i : nat) (cs : list case) : list nat :=
   end.
 
 Definition mismatches (cs : list case) : list nat := mismatches_from 0 cs.
+
+(* ---------- codec with failing entry codecs (CodecModel.v): SerializableOrderedMap[K,V] / Set[K] for arbitrary K, V ----------
+   Keys and values are numbered; ktbl / vtbl give the code of each (None = api.Encode fails). The observed Encode result and
+   a list of Decode observations (initial entries of the receiver, input, bytesRead or error, entries afterwards). *)
+Inductive encobs := XOk (b : list N) | XErr (e : option cerr).   (* XErr None: an error that does not name its origin *)
+Record decobs := mkDObs { d_init : list (N * N); d_input : list N; d_res : option nat; d_pairs : list (N * N) }.
+
+Definition cerr_eqb (a b : cerr) : bool :=
+  match a, b with
+  | CEKey i, CEKey j => Nat.eqb i j
+  | CEVal i, CEVal j => Nat.eqb i j
+  | _, _ => false
+  end.
+
+Definition encobs_ok (m : encres) (o : encobs) : bool :=
+  match m, o with
+  | EncOk b, XOk b' => list_eqb N.eqb b b'
+  | EncErr _, XErr None => true
+  | EncErr e, XErr (Some e') => cerr_eqb e e'
+  | _, _ => false
+  end.
+
+Definition decobs_ok (ktbl vtbl : codec_tbl) (d : decobs) : bool :=
+  let '(s', r) := som_decode (tdec ktbl) (tdec vtbl) (om_of_entries (d_init d)) (d_input d) in
+  optnat_eqb r (d_res d) && list_eqb pair_eqb (om_list s') (d_pairs d).
+
+Inductive ccase := CCodec (entries : list (N * N)) (ktbl vtbl : codec_tbl) (e : encobs) (ds : list decobs).
+
+Definition ccase_ok (c : ccase) : bool :=
+  match c with
+  | CCodec entries ktbl vtbl e ds =>
+      encobs_ok (som_encode (tenc ktbl) (tenc vtbl) (om_of_entries entries)) e && forallb (decobs_ok ktbl vtbl) ds
+  end.
+
+Fixpoint cmismatches_from (i : nat) (cs : list ccase) : list nat :=
+  match cs with
+  | [] => []
+  | c :: r => if ccase_ok c then cmismatches_from (S i) r else i :: cmismatches_from (S i) r
+  end.
+
+Definition cmismatches (cs : list ccase) : list nat := cmismatches_from 0 cs.
